@@ -25,12 +25,42 @@ META = {
         " Round 7: no silent de-duplication on insert; unverified bulk copy only for the container's own class (any spelling of the extend); is_error / is_undef tables; TRS.__eq__ true only for a TRS."
         ' Round 8: __setitem__ stores a verified iterable only under a slice; unpack_group goes into nested dicts; a first-element type test does not decide a bulk extend.'
         ' Round 10: a position (loop index) is never tested against a collection that only receives elements / keys, nor the reverse.'
-        ' Round 11: partial-error TRS strings keep their valid components in the case they reach the unpacker (shared with C12).'),
+        ' Round 11: partial-error TRS strings keep their valid components in the case they reach the unpacker (shared with C12).'
+        ' Round 12: the verifying class methods are found by what they do; `extend([t for t in xs if t not in target])` is a silent de-duplication.'),
     'families': ['SINK', 'EXC', 'TBL', 'FORWARD', 'DEADPARAM', 'SIB-DEFAULTS'],
 }
 
 VERIFY = ('self._verify_individual', 'self._verify_iterable', 'cls._verify_individual',
           'cls._verify_iterable')
+
+
+def verify_names(ctx, base):
+    """dotted names of the verifying class methods, found by what they do: private classmethods of the
+    container that return a value and (through calls inside the class) reach `raise TypeError` - so a
+    rename (`_checked_list` / `_checked_element`) keeps them"""
+    def find():
+        reach = set()
+        for m in base.methods.values():
+            if any(isinstance(x, ast.Raise) and 'TypeError' in norm(x) for x in ast.walk(m.node)):
+                reach.add(m.node.name)
+        changed = True
+        while changed:
+            changed = False
+            for m in base.methods.values():
+                if m.node.name in reach:
+                    continue
+                if any(isinstance(c, ast.Call) and (dotted(c.func) or '').split('.')[0] in ('self', 'cls')
+                       and (dotted(c.func) or '').split('.')[-1] in reach for c in ast.walk(m.node)):
+                    reach.add(m.node.name)
+                    changed = True
+        names = [n for n in reach if n.startswith('_') and not n.startswith('__')
+                 and any((dotted(d) or '') == 'classmethod' for d in base.methods[n].node.decorator_list)
+                 and any(isinstance(r, ast.Return) and r.value is not None for r in ast.walk(base.methods[n].node))]
+        out = set(VERIFY)
+        for n in names:
+            out |= {f"self.{n}", f"cls.{n}"}
+        return tuple(sorted(out))
+    return ctx.cache(('verify-names', base.name), find)
 
 
 def check(ctx):
@@ -132,7 +162,7 @@ def _entry_paths(ctx, base):
             prov = flow.provenance(m.node, added)
             calls = flow.prov_calls(prov)
             attrs = flow.prov_attrs(prov)
-            verified = bool(set(calls) & set(VERIFY))
+            verified = bool(set(calls) & set(verify_names(ctx, base)))
             # the verified part must be the whole right-hand side apart from
             # existing elements: no unverified parameter flows in
             params = flow.prov_params(prov) - {'self', 'cls', 'n', 'index', 'i'}
@@ -144,7 +174,7 @@ def _entry_paths(ctx, base):
                     for c in ast.walk(added) if not isinstance(added, ast.Name) else []:
                         pass
                     raw.add(p)
-                raw = {p for p in raw if not _only_inside_verify(m, added, p)}
+                raw = {p for p in raw if not _only_inside_verify(m, added, p, verify_names(ctx, base))}
             from_self = 'self._elements' in attrs
             ok = (verified or from_self) and not raw
             ctx.check(ok, 'SINK', f"{m.qualname}: {what}",
@@ -155,7 +185,7 @@ def _entry_paths(ctx, base):
     ctx.floor('_elements entry sites', n, 4)
 
 
-def _only_inside_verify(m, expr, p):
+def _only_inside_verify(m, expr, p, VERIFY=VERIFY):
     """every flow of parameter p into expr passes through a verify call."""
     cfg, rd = flow.analyse(m.node)
 
